@@ -1,6 +1,10 @@
+#[cfg(feature = "verif_sim_net")]
+use crate::sim_net::TcpStream;
+#[cfg(not(feature = "verif_sim_net"))]
+use std::net::TcpStream;
 use std::{
     io,
-    net::{Ipv4Addr, SocketAddr, TcpStream},
+    net::{Ipv4Addr, SocketAddr},
     time::Instant,
 };
 
